@@ -5,11 +5,19 @@
 (*                                                                            *)
 (* Metric side (record M): provider.mtx (pmtx), meter.mtx (mmtx[m]),           *)
 (* registration.unregMu (umu[g]), delegateMeterOnce (once).  Processes:        *)
-(*   MInst       SetMeterProvider callers                                     *)
+(*   MInst       callers of SetMeterProvider; each runs Script[i], a sequence  *)
+(*               over "self" (Set(Get()): documented no-op while the default   *)
+(*               is installed), "r1", "r2" (two distinct real SDKs).  Docs:    *)
+(*               the FIRST real provider gets every early handle (and those    *)
+(*               the default provider will still hand out); later Sets only    *)
+(*               replace the global for new Get calls; a self-set must not     *)
+(*               use up the one-time hand-over.                                *)
 (*   Creators    Meter -> sync instrument -> RecsPer x Add (PreC: the meter   *)
 (*               and instrument were obtained before anything else ran)       *)
 (*   Registrars  Meter -> observable instrument -> RegisterCallback           *)
 (*               [-> Unregister if in UnregG] (PreG: registered beforehand)   *)
+(*               Kept: owners / tracer users that go through a kept reference *)
+(*               to the default provider instead of a fresh Get               *)
 (* Trace side (record T): tracerProvider.mtx; TInst, TUsers (Tracer, Start).   *)
 (* Simple delegators (record X): propagator / error handler, kinds XKinds.     *)
 (* Monitor variables (mon) observe API-level facts only.                       *)
@@ -21,10 +29,12 @@ EXTENDS Naturals, Sequences, FiniteSets, TLC
 
 CONSTANTS MInst, Creators, PreC, RecsPer, Registrars, PreG, UnregG, MeterOf,
           TInst, TUsers, PreT, TracerOf, SpansPer, XKinds, UsesPer,
+          Script,      \* installer (MInst, TInst, XI) -> sequence over {"self", "r1", "r2"}
+          Kept,        \* owners / tracer users holding a reference to the default provider
           Patched, AllowKnown
 
-VARIABLES M, T, X, pc, cnt, mon
-vars == <<M, T, X, pc, cnt, mon>>
+VARIABLES M, T, X, S, pc, cnt, mon
+vars == <<M, T, X, S, pc, cnt, mon>>
 
 XI == {"xi." \o k : k \in XKinds}
 XU == {"xu." \o k : k \in XKinds}
@@ -34,17 +44,20 @@ Procs == MInst \cup Owners \cup TInst \cup TUsers \cup XI \cup XU
 Meters == {MeterOf[x] : x \in Owners}
 Tracers == {TracerOf[u] : u \in TUsers}
 Kinds == {"mp", "tp"} \cup XKinds
+Real == {"r1", "r2"}
+Insts == MInst \cup TInst \cup XI
 
 RECURSIVE SeqOf(_)
 SeqOf(S) == IF S = {} THEN <<>> ELSE LET x == CHOOSE y \in S : TRUE IN <<x>> \o SeqOf(S \ {x})
 Without(s, g) == SelectSeq(s, LAMBDA y : y # g)
 
+(* "none" = no delegate / no handle; "global" = the default (delegating) object; "r1"/"r2" = a real SDK *)
 Init ==
-  /\ M = [gmp |-> "global", once |-> "free", pmtx |-> "none", pdel |-> FALSE,
+  /\ M = [gmp |-> "global", once |-> "free", pmtx |-> "none", pdel |-> "none",
           meters |-> {MeterOf[x] : x \in PreC \cup PreG},
-          mmtx |-> [m \in Meters |-> "none"], mdel |-> [m \in Meters |-> FALSE],
+          mmtx |-> [m \in Meters |-> "none"], mdel |-> [m \in Meters |-> "none"],
           minst |-> [m \in Meters |-> {x \in PreC \cup PreG : MeterOf[x] = m}],
-          idel |-> [x \in Owners |-> FALSE],
+          idel |-> [x \in Owners |-> "none"],
           registry |-> [m \in Meters |-> SeqOf({g \in PreG : MeterOf[g] = m})],
           unreg |-> [g \in Registrars |-> IF g \in PreG THEN "pre" ELSE "none"],
           umu |-> [g \in Registrars |-> "none"], utmp |-> [g \in Registrars |-> "none"],
@@ -52,17 +65,22 @@ Init ==
           handle |-> [x \in Owners |-> IF x \in PreC \cup PreG THEN "global" ELSE "none"],
           ikind |-> [x \in Owners |-> IF x \in PreC \cup PreG THEN "global" ELSE "none"],
           rkind |-> [g \in Registrars |-> IF g \in PreG THEN "global" ELSE "none"]]
-  /\ T = [gtp |-> "global", once |-> "free", mtx |-> "none", pdel |-> FALSE,
-          tracers |-> {TracerOf[u] : u \in PreT}, tdel |-> [t \in Tracers |-> FALSE], todo |-> {},
+  /\ T = [gtp |-> "global", once |-> "free", mtx |-> "none", pdel |-> "none",
+          tracers |-> {TracerOf[u] : u \in PreT}, tdel |-> [t \in Tracers |-> "none"], todo |-> {},
           handle |-> [u \in TUsers |-> IF u \in PreT THEN "global" ELSE "none"]]
-  /\ X = [g |-> [k \in XKinds |-> "global"], del |-> [k \in XKinds |-> FALSE]]
+  /\ X = [g |-> [k \in XKinds |-> "global"], del |-> [k \in XKinds |-> "none"], once |-> [k \in XKinds |-> "free"]]
+  /\ S = [val |-> [i \in Insts |-> "none"],    \* the provider passed to the Set call in progress
+          cur |-> [i \in Insts |-> "none"]]    \* `current` as read at the beginning of that call
   /\ pc = [p \in Procs |->
-             IF p \in PreC THEN "rec"
+             IF p \in Insts THEN (IF Len(Script[p]) = 0 THEN "done" ELSE "idle")
+             ELSE IF p \in PreC THEN "rec"
              ELSE IF p \in PreG THEN (IF p \in UnregG THEN "registered" ELSE "done")
              ELSE IF p \in PreT THEN "start"
              ELSE IF p \in XU THEN "use" ELSE "idle"]
   /\ cnt = [p \in Procs |-> 0]
-  /\ mon = [setRet |-> [k \in Kinds |-> FALSE], after |-> [p \in Procs |-> FALSE],
+  /\ mon = [setRet |-> [k \in Kinds |-> FALSE],     \* some Set with a REAL provider has returned
+            first |-> [k \in Kinds |-> "none"],     \* the real provider of the first such Set that began delegating
+            after |-> [p \in Procs |-> FALSE],
             sdkReg |-> [g \in Registrars |-> 0], sdkAct |-> [g \in Registrars |-> 0],
             regRet |-> PreG, unregCalled |-> {}, unregRet |-> {}, bad |-> {}]
 
@@ -72,32 +90,60 @@ SdkRegister(mn, g) ==
              !.bad = @ \cup (IF mn.sdkReg[g] >= 1 THEN {"registered-twice"} ELSE {})
                        \cup (IF g \in mn.unregRet THEN {"registered-after-unregister"} ELSE {})]
 SdkUnregister(mn, g) == [mn EXCEPT !.sdkAct[g] = IF @ > 0 THEN @ - 1 ELSE 0]
-Lost(mn, p, reached, what) ==
-  [mn EXCEPT !.bad = @ \cup (IF mn.after[p] /\ ~reached THEN {what} ELSE {})]
+(* a use through a handle of the default provider, begun after a real Set returned, must reach an SDK, and
+   always the one that was installed first *)
+Judge(mn, p, k, viaDefault, target, what) ==
+  [mn EXCEPT !.bad = @ \cup (IF mn.after[p] /\ target = "none" THEN {what} ELSE {})
+                       \cup (IF viaDefault /\ target # "none" /\ target # mn.first[k]
+                             THEN {"early-handle-reached-other-sdk"} ELSE {})]
+
+(* ------------------------------------------------ the Set call surface (state.go:62,94,123,155) *)
+(* SBegin: next entry of the script; "self" = Set(Get()): the argument is whatever Get returns now.       *)
+(* SCall:  `current := Get()`; the guard "default set to itself" returns without touching the once.       *)
+Glob(i) == IF i \in MInst THEN M.gmp ELSE IF i \in TInst THEN T.gtp ELSE X.g[KindOf(i)]
+KindK(i) == IF i \in MInst THEN "mp" ELSE IF i \in TInst THEN "tp" ELSE KindOf(i)
+SBegin(i) == /\ pc[i] = "idle"
+             /\ LET a == Script[i][cnt[i] + 1] IN
+                S' = [S EXCEPT !.val[i] = IF a = "self" THEN Glob(i) ELSE a]
+             /\ Go(i, "call") /\ UNCHANGED <<M, T, X, cnt, mon>>
+SCall(i) == /\ pc[i] = "call"
+            /\ S' = [S EXCEPT !.cur[i] = Glob(i)]
+            /\ Go(i, IF Glob(i) = "global" /\ S.val[i] = "global" THEN "ret" ELSE "once")
+            /\ UNCHANGED <<M, T, X, cnt, mon>>
+SRet(i) == /\ pc[i] = "ret"
+           /\ cnt' = [cnt EXCEPT ![i] = @ + 1]
+           /\ Go(i, IF cnt[i] + 1 >= Len(Script[i]) THEN "done" ELSE "idle")
+           /\ mon' = IF S.val[i] \in Real /\ S.cur[i] # "none" /\ pc[i] = "ret" /\ S.val[i] # "global"
+                       THEN [mon EXCEPT !.setRet[KindK(i)] = TRUE] ELSE mon
+           /\ S' = [S EXCEPT !.val[i] = "none", !.cur[i] = "none"]
+           /\ UNCHANGED <<M, T, X>>
 
 (* ------------------------------------------------ SetMeterProvider (state.go:155, meter.go:37,126,596) *)
-Pending == IF M.cur = "none" THEN {} ELSE {x \in M.minst[M.cur] : ~M.idel[x]}
-ICall(i) == pc[i] = "idle" /\ Go(i, "once") /\ UNCHANGED <<M, T, X, cnt, mon>>
+Pending == IF M.cur = "none" THEN {} ELSE {x \in M.minst[M.cur] : M.idel[x] = "none"}
+(* sync.Once: the first caller runs the body; the body delegates only if `current` is the default provider *)
 IOnce(i) == /\ pc[i] = "once"
-            /\ IF M.once = "free" THEN (M' = [M EXCEPT !.once = "running"] /\ Go(i, "plock"))
-                                  ELSE (UNCHANGED M /\ Go(i, "oncewait"))
-            /\ UNCHANGED <<T, X, cnt, mon>>
-IOnceWait(i) == pc[i] = "oncewait" /\ M.once = "done" /\ Go(i, "store") /\ UNCHANGED <<M, T, X, cnt, mon>>
+            /\ IF M.once = "free"
+                 THEN IF S.cur[i] = "global" THEN (M' = [M EXCEPT !.once = "running"] /\ Go(i, "plock"))
+                                             ELSE (M' = [M EXCEPT !.once = "done"] /\ Go(i, "store"))
+                 ELSE (UNCHANGED M /\ Go(i, "oncewait"))
+            /\ UNCHANGED <<T, X, S, cnt, mon>>
+IOnceWait(i) == pc[i] = "oncewait" /\ M.once = "done" /\ Go(i, "store") /\ UNCHANGED <<M, T, X, S, cnt, mon>>
 IProvLock(i) == /\ pc[i] = "plock" /\ M.pmtx = "none"
-                /\ M' = [M EXCEPT !.pmtx = i, !.pdel = TRUE, !.todo = M.meters]
+                /\ M' = [M EXCEPT !.pmtx = i, !.pdel = S.val[i], !.todo = M.meters]
+                /\ mon' = [mon EXCEPT !.first["mp"] = IF @ = "none" THEN S.val[i] ELSE @]
                 /\ Go(i, IF M.meters = {} THEN "punlock" ELSE "mlock")
-                /\ UNCHANGED <<T, X, cnt, mon>>
+                /\ UNCHANGED <<T, X, S, cnt>>
 IMeterLock(i, m) == /\ pc[i] = "mlock" /\ m \in M.todo /\ M.mmtx[m] = "none"
                     /\ M' = [M EXCEPT !.mmtx[m] = i, !.cur = m] /\ Go(i, "mdeleg")
-                    /\ UNCHANGED <<T, X, cnt, mon>>
-IDelegateMeter(i) == /\ pc[i] = "mdeleg" /\ M' = [M EXCEPT !.mdel[M.cur] = TRUE] /\ Go(i, "walk")
-                     /\ UNCHANGED <<T, X, cnt, mon>>
-IInst(i, x) == /\ pc[i] = "walk" /\ x \in Pending /\ M' = [M EXCEPT !.idel[x] = TRUE]
-               /\ UNCHANGED <<T, X, pc, cnt, mon>>
+                    /\ UNCHANGED <<T, X, S, cnt, mon>>
+IDelegateMeter(i) == /\ pc[i] = "mdeleg" /\ M' = [M EXCEPT !.mdel[M.cur] = M.pdel] /\ Go(i, "walk")
+                     /\ UNCHANGED <<T, X, S, cnt, mon>>
+IInst(i, x) == /\ pc[i] = "walk" /\ x \in Pending /\ M' = [M EXCEPT !.idel[x] = M.pdel]
+               /\ UNCHANGED <<T, X, S, pc, cnt, mon>>
 IRegLock(i) == /\ pc[i] = "walk" /\ Pending = {} /\ M.registry[M.cur] # <<>>
                /\ LET g == Head(M.registry[M.cur]) IN
                   /\ M.umu[g] = "none" /\ M' = [M EXCEPT !.umu[g] = i]
-               /\ Go(i, "reg") /\ UNCHANGED <<T, X, cnt, mon>>
+               /\ Go(i, "reg") /\ UNCHANGED <<T, X, S, cnt, mon>>
 IReg(i) == /\ pc[i] = "reg"
            /\ LET g == Head(M.registry[M.cur]) IN
               IF M.unreg[g] = "nil"      \* Unregister already called: skip
@@ -105,54 +151,58 @@ IReg(i) == /\ pc[i] = "reg"
                      /\ UNCHANGED mon
                 ELSE /\ M' = [M EXCEPT !.umu[g] = "none", !.registry[M.cur] = Tail(@), !.unreg[g] = "sdk"]
                      /\ mon' = SdkRegister(mon, g)
-           /\ Go(i, "walk") /\ UNCHANGED <<T, X, cnt>>
+           /\ Go(i, "walk") /\ UNCHANGED <<T, X, S, cnt>>
 IMeterUnlock(i) == /\ pc[i] = "walk" /\ Pending = {} /\ M.registry[M.cur] = <<>>
                    /\ M' = [M EXCEPT !.mmtx[M.cur] = "none", !.minst[M.cur] = {}, !.todo = @ \ {M.cur}, !.cur = "none"]
                    /\ Go(i, IF M.todo \ {M.cur} = {} THEN "punlock" ELSE "mlock")
-                   /\ UNCHANGED <<T, X, cnt, mon>>
+                   /\ UNCHANGED <<T, X, S, cnt, mon>>
 IProvUnlock(i) == /\ pc[i] = "punlock" /\ M' = [M EXCEPT !.pmtx = "none", !.meters = {}, !.once = "done"]
-                  /\ Go(i, "store") /\ UNCHANGED <<T, X, cnt, mon>>
-IStore(i) == pc[i] = "store" /\ M' = [M EXCEPT !.gmp = "sdk"] /\ Go(i, "ret") /\ UNCHANGED <<T, X, cnt, mon>>
-IRet(i) == /\ pc[i] = "ret" /\ Go(i, "done") /\ mon' = [mon EXCEPT !.setRet["mp"] = TRUE]
-           /\ UNCHANGED <<M, T, X, cnt>>
+                  /\ Go(i, "store") /\ UNCHANGED <<T, X, S, cnt, mon>>
+IStore(i) == pc[i] = "store" /\ M' = [M EXCEPT !.gmp = S.val[i]] /\ Go(i, "ret") /\ UNCHANGED <<T, X, S, cnt, mon>>
 
 (* ------------------------------------------------ creators and registrars: Meter, instrument (meter.go:55,149-496) *)
+(* OGet = GetMeterProvider(); an owner in Kept uses its reference to the default provider instead *)
 OGet(c) == /\ pc[c] = "idle"
-           /\ IF M.gmp = "sdk" THEN (M' = [M EXCEPT !.handle[c] = "sdk"] /\ Go(c, "inst"))
-                               ELSE (UNCHANGED M /\ Go(c, "pm"))
-           /\ UNCHANGED <<T, X, cnt, mon>>
+           /\ IF M.gmp # "global" /\ c \notin Kept THEN (M' = [M EXCEPT !.handle[c] = M.gmp] /\ Go(c, "inst"))
+                                                  ELSE (UNCHANGED M /\ Go(c, "pm"))
+           /\ UNCHANGED <<T, X, S, cnt, mon>>
 OMeter(c) == /\ pc[c] = "pm" /\ M.pmtx = "none"
-             /\ M' = IF M.pdel THEN [M EXCEPT !.handle[c] = "sdk"]
-                               ELSE [M EXCEPT !.handle[c] = "global", !.meters = @ \cup {MeterOf[c]}]
-             /\ Go(c, "inst") /\ UNCHANGED <<T, X, cnt, mon>>
+             /\ M' = IF M.pdel # "none" THEN [M EXCEPT !.handle[c] = "fwd"]
+                                        ELSE [M EXCEPT !.handle[c] = "global", !.meters = @ \cup {MeterOf[c]}]
+             /\ Go(c, "inst") /\ UNCHANGED <<T, X, S, cnt, mon>>
+(* handle: "global" = placeholder meter; "fwd" = the first SDK's meter handed out by the default provider;
+   "r1"/"r2" = a meter of the SDK that Get returned.  ikind: "global" = placeholder instrument (delegate in idel),
+   "fwd:<sdk>" is represented by idel[c] set at creation. *)
 OInst(c) == /\ pc[c] = "inst"
             /\ LET m == MeterOf[c] IN
-               IF M.handle[c] = "sdk" THEN M' = [M EXCEPT !.ikind[c] = "sdk"]
+               IF M.handle[c] \in Real THEN M' = [M EXCEPT !.ikind[c] = M.handle[c]]
+               ELSE IF M.handle[c] = "fwd" THEN M' = [M EXCEPT !.ikind[c] = "fwd", !.idel[c] = M.pdel]
                ELSE /\ M.mmtx[m] = "none"
-                    /\ M' = IF M.mdel[m] THEN [M EXCEPT !.ikind[c] = "sdk"]
-                                         ELSE [M EXCEPT !.ikind[c] = "global", !.minst[m] = @ \cup {c}]
-            /\ Go(c, IF c \in Creators THEN "rec" ELSE "register") /\ UNCHANGED <<T, X, cnt, mon>>
+                    /\ M' = IF M.mdel[m] # "none" THEN [M EXCEPT !.ikind[c] = "fwd", !.idel[c] = M.mdel[m]]
+                                                  ELSE [M EXCEPT !.ikind[c] = "global", !.minst[m] = @ \cup {c}]
+            /\ Go(c, IF c \in Creators THEN "rec" ELSE "register") /\ UNCHANGED <<T, X, S, cnt, mon>>
 (* Add / Record: delegate.Load() then forward or drop (instruments.go:330) *)
 RCall(c) == /\ c \in Creators /\ pc[c] = "rec" /\ Go(c, "load")
-            /\ mon' = [mon EXCEPT !.after[c] = mon.setRet["mp"]] /\ UNCHANGED <<M, T, X, cnt>>
+            /\ mon' = [mon EXCEPT !.after[c] = mon.setRet["mp"]] /\ UNCHANGED <<M, T, X, S, cnt>>
 RLoad(c) == /\ c \in Creators /\ pc[c] = "load"
-            /\ mon' = Lost(mon, c, M.ikind[c] = "sdk" \/ M.idel[c], "lost-after-set")
+            /\ mon' = IF M.ikind[c] \in Real THEN mon
+                      ELSE Judge(mon, c, "mp", TRUE, M.idel[c], "lost-after-set")
             /\ cnt' = [cnt EXCEPT ![c] = @ + 1]
-            /\ Go(c, IF cnt[c] + 1 >= RecsPer THEN "done" ELSE "rec") /\ UNCHANGED <<M, T, X>>
+            /\ Go(c, IF cnt[c] + 1 >= RecsPer THEN "done" ELSE "rec") /\ UNCHANGED <<M, T, X, S>>
 
 (* ------------------------------------------------ RegisterCallback / Unregister (meter.go:499,614) *)
 GRegister(g) ==
   /\ g \in Registrars /\ pc[g] = "register"
   /\ LET m == MeterOf[g]
          fwd == [M EXCEPT !.rkind[g] = "sdk", !.unreg[g] = "sdk"] IN
-     IF M.handle[g] = "sdk" THEN (M' = fwd /\ mon' = [SdkRegister(mon, g) EXCEPT !.regRet = @ \cup {g}])
+     IF M.handle[g] \in Real \cup {"fwd"} THEN (M' = fwd /\ mon' = [SdkRegister(mon, g) EXCEPT !.regRet = @ \cup {g}])
      ELSE /\ M.mmtx[m] = "none"
-          /\ IF M.mdel[m] THEN (M' = fwd /\ mon' = [SdkRegister(mon, g) EXCEPT !.regRet = @ \cup {g}])
+          /\ IF M.mdel[m] # "none" THEN (M' = fwd /\ mon' = [SdkRegister(mon, g) EXCEPT !.regRet = @ \cup {g}])
              ELSE /\ M' = [M EXCEPT !.rkind[g] = "global", !.unreg[g] = "pre", !.registry[m] = Append(@, g)]
                   /\ mon' = [mon EXCEPT !.regRet = @ \cup {g}]
-  /\ Go(g, IF g \in UnregG THEN "registered" ELSE "done") /\ UNCHANGED <<T, X, cnt>>
+  /\ Go(g, IF g \in UnregG THEN "registered" ELSE "done") /\ UNCHANGED <<T, X, S, cnt>>
 GUnregCall(g) == /\ g \in Registrars /\ pc[g] = "registered" /\ Go(g, "ulock")
-                 /\ mon' = [mon EXCEPT !.unregCalled = @ \cup {g}] /\ UNCHANGED <<M, T, X, cnt>>
+                 /\ mon' = [mon EXCEPT !.unregCalled = @ \cup {g}] /\ UNCHANGED <<M, T, X, S, cnt>>
 GUnregLock(g) ==
   /\ g \in Registrars /\ pc[g] = "ulock"
   /\ IF M.rkind[g] = "sdk"      \* the SDK's own registration was handed out: no global lock involved
@@ -162,90 +212,97 @@ GUnregLock(g) ==
                ELSE IF Patched
                  THEN (M' = [M EXCEPT !.utmp[g] = M.unreg[g], !.unreg[g] = "nil"] /\ Go(g, "ucall"))
                  ELSE (M' = [M EXCEPT !.utmp[g] = M.unreg[g], !.umu[g] = g] /\ Go(g, "ucall"))
-  /\ UNCHANGED <<T, X, cnt>>
+  /\ UNCHANGED <<T, X, S, cnt>>
 GUnreg(g) ==
   /\ g \in Registrars /\ pc[g] = "ucall"
   /\ LET m == MeterOf[g]
-         rel(S) == IF Patched THEN S ELSE [S EXCEPT !.unreg[g] = "nil", !.umu[g] = "none"] IN
+         rel(Q) == IF Patched THEN Q ELSE [Q EXCEPT !.unreg[g] = "nil", !.umu[g] = "none"] IN
      IF M.utmp[g] = "pre"     \* the closure of RegisterCallback: m.mtx.Lock(); registry.Remove(e)
        THEN /\ M.mmtx[m] = "none"
             /\ M' = rel([M EXCEPT !.registry[m] = Without(@, g)]) /\ UNCHANGED mon
        ELSE /\ M' = rel(M) /\ mon' = SdkUnregister(mon, g)
-  /\ Go(g, "uret") /\ UNCHANGED <<T, X, cnt>>
+  /\ Go(g, "uret") /\ UNCHANGED <<T, X, S, cnt>>
 GURet(g) == /\ g \in Registrars /\ pc[g] = "uret" /\ Go(g, "done")
             /\ mon' = [mon EXCEPT !.unregRet = @ \cup {g},
                                   !.bad = @ \cup (IF mon.sdkAct[g] > 0 THEN {"active-after-unregister"} ELSE {})]
-            /\ UNCHANGED <<M, T, X, cnt>>
+            /\ UNCHANGED <<M, T, X, S, cnt>>
 
 (* ------------------------------------------------ tracers (state.go:94, trace.go:58,76,131) *)
-TICall(i) == pc[i] = "idle" /\ Go(i, "once") /\ UNCHANGED <<M, T, X, cnt, mon>>
 TIOnce(i) == /\ pc[i] = "once"
-             /\ IF T.once = "free" THEN (T' = [T EXCEPT !.once = "running"] /\ Go(i, "plock"))
-                                   ELSE (UNCHANGED T /\ Go(i, "oncewait"))
-             /\ UNCHANGED <<M, X, cnt, mon>>
-TIOnceWait(i) == pc[i] = "oncewait" /\ T.once = "done" /\ Go(i, "store") /\ UNCHANGED <<M, T, X, cnt, mon>>
+             /\ IF T.once = "free"
+                  THEN IF S.cur[i] = "global" THEN (T' = [T EXCEPT !.once = "running"] /\ Go(i, "plock"))
+                                              ELSE (T' = [T EXCEPT !.once = "done"] /\ Go(i, "store"))
+                  ELSE (UNCHANGED T /\ Go(i, "oncewait"))
+             /\ UNCHANGED <<M, X, S, cnt, mon>>
+TIOnceWait(i) == pc[i] = "oncewait" /\ T.once = "done" /\ Go(i, "store") /\ UNCHANGED <<M, T, X, S, cnt, mon>>
 TIProvLock(i) == /\ pc[i] = "plock" /\ T.mtx = "none"
-                 /\ T' = [T EXCEPT !.mtx = i, !.pdel = TRUE, !.todo = T.tracers] /\ Go(i, "walk")
-                 /\ UNCHANGED <<M, X, cnt, mon>>
+                 /\ T' = [T EXCEPT !.mtx = i, !.pdel = S.val[i], !.todo = T.tracers] /\ Go(i, "walk")
+                 /\ mon' = [mon EXCEPT !.first["tp"] = IF @ = "none" THEN S.val[i] ELSE @]
+                 /\ UNCHANGED <<M, X, S, cnt>>
 TITracer(i, t) == /\ pc[i] = "walk" /\ t \in T.todo
-                  /\ T' = [T EXCEPT !.tdel[t] = TRUE, !.todo = @ \ {t}] /\ UNCHANGED <<M, X, pc, cnt, mon>>
+                  /\ T' = [T EXCEPT !.tdel[t] = T.pdel, !.todo = @ \ {t}] /\ UNCHANGED <<M, X, S, pc, cnt, mon>>
 TIProvUnlock(i) == /\ pc[i] = "walk" /\ T.todo = {}
                    /\ T' = [T EXCEPT !.mtx = "none", !.tracers = {}, !.once = "done"] /\ Go(i, "store")
-                   /\ UNCHANGED <<M, X, cnt, mon>>
-TIStore(i) == pc[i] = "store" /\ T' = [T EXCEPT !.gtp = "sdk"] /\ Go(i, "ret") /\ UNCHANGED <<M, X, cnt, mon>>
-TIRet(i) == /\ pc[i] = "ret" /\ Go(i, "done") /\ mon' = [mon EXCEPT !.setRet["tp"] = TRUE]
-            /\ UNCHANGED <<M, T, X, cnt>>
+                   /\ UNCHANGED <<M, X, S, cnt, mon>>
+TIStore(i) == pc[i] = "store" /\ T' = [T EXCEPT !.gtp = S.val[i]] /\ Go(i, "ret") /\ UNCHANGED <<M, X, S, cnt, mon>>
 UGet(u) == /\ pc[u] = "idle"
-           /\ IF T.gtp = "sdk" THEN (T' = [T EXCEPT !.handle[u] = "sdk"] /\ Go(u, "start"))
-                               ELSE (UNCHANGED T /\ Go(u, "pt"))
-           /\ UNCHANGED <<M, X, cnt, mon>>
+           /\ IF T.gtp # "global" /\ u \notin Kept THEN (T' = [T EXCEPT !.handle[u] = T.gtp] /\ Go(u, "start"))
+                                                  ELSE (UNCHANGED T /\ Go(u, "pt"))
+           /\ UNCHANGED <<M, X, S, cnt, mon>>
 UTracer(u) == /\ pc[u] = "pt" /\ T.mtx = "none"
-              /\ T' = IF T.pdel THEN [T EXCEPT !.handle[u] = "sdk"]
-                                ELSE [T EXCEPT !.handle[u] = "global", !.tracers = @ \cup {TracerOf[u]}]
-              /\ Go(u, "start") /\ UNCHANGED <<M, X, cnt, mon>>
+              /\ T' = IF T.pdel # "none" THEN [T EXCEPT !.handle[u] = "fwd"]
+                                         ELSE [T EXCEPT !.handle[u] = "global", !.tracers = @ \cup {TracerOf[u]}]
+              /\ Go(u, "start") /\ UNCHANGED <<M, X, S, cnt, mon>>
 UCall(u) == /\ pc[u] = "start" /\ Go(u, "load")
-            /\ mon' = [mon EXCEPT !.after[u] = mon.setRet["tp"]] /\ UNCHANGED <<M, T, X, cnt>>
+            /\ mon' = [mon EXCEPT !.after[u] = mon.setRet["tp"]] /\ UNCHANGED <<M, T, X, S, cnt>>
 ULoad(u) == /\ pc[u] = "load"
-            /\ mon' = Lost(mon, u, T.handle[u] = "sdk" \/ T.tdel[TracerOf[u]], "span-lost-after-set")
+            /\ mon' = IF T.handle[u] \in Real THEN mon
+                      ELSE Judge(mon, u, "tp", TRUE, IF T.handle[u] = "fwd" THEN T.pdel ELSE T.tdel[TracerOf[u]],
+                                 "span-lost-after-set")
             /\ cnt' = [cnt EXCEPT ![u] = @ + 1]
-            /\ Go(u, IF cnt[u] + 1 >= SpansPer THEN "done" ELSE "start") /\ UNCHANGED <<M, T, X>>
+            /\ Go(u, IF cnt[u] + 1 >= SpansPer THEN "done" ELSE "start") /\ UNCHANGED <<M, T, X, S>>
 
 (* ------------------------------------------------ propagator / error handler (propagator.go, handler.go) *)
-XCall(i) == pc[i] = "idle" /\ Go(i, "set") /\ UNCHANGED <<M, T, X, cnt, mon>>
-XSet(i) == /\ pc[i] = "set" /\ X' = [X EXCEPT !.del[KindOf(i)] = TRUE] /\ Go(i, "store")
-           /\ UNCHANGED <<M, T, cnt, mon>>
-XStore(i) == /\ pc[i] = "store" /\ X' = [X EXCEPT !.g[KindOf(i)] = "sdk"] /\ Go(i, "ret")
-             /\ UNCHANGED <<M, T, cnt, mon>>
-XRet(i) == /\ pc[i] = "ret" /\ Go(i, "done") /\ mon' = [mon EXCEPT !.setRet[KindOf(i)] = TRUE]
-           /\ UNCHANGED <<M, T, X, cnt>>
+XOnce(i) == /\ pc[i] = "once"
+            /\ LET k == KindOf(i) IN
+               IF X.once[k] = "free"
+                 THEN X' = [X EXCEPT !.once[k] = "done", !.del[k] = IF S.cur[i] = "global" THEN S.val[i] ELSE @]
+                 ELSE UNCHANGED X
+            /\ mon' = IF X.once[KindOf(i)] = "free" /\ S.cur[i] = "global"
+                        THEN [mon EXCEPT !.first[KindOf(i)] = S.val[i]] ELSE mon
+            /\ Go(i, "store") /\ UNCHANGED <<M, T, S, cnt>>
+XStore(i) == /\ pc[i] = "store" /\ X' = [X EXCEPT !.g[KindOf(i)] = S.val[i]] /\ Go(i, "ret")
+             /\ UNCHANGED <<M, T, S, cnt, mon>>
 XUCall(u) == /\ pc[u] = "use" /\ Go(u, "load")
-             /\ mon' = [mon EXCEPT !.after[u] = mon.setRet[KindOf(u)]] /\ UNCHANGED <<M, T, X, cnt>>
+             /\ mon' = [mon EXCEPT !.after[u] = mon.setRet[KindOf(u)]] /\ UNCHANGED <<M, T, X, S, cnt>>
 XULoad(u) == /\ pc[u] = "load"
-             /\ mon' = Lost(mon, u, X.del[KindOf(u)], "use-lost-after-set")
+             /\ mon' = Judge(mon, u, KindOf(u), TRUE, X.del[KindOf(u)], "use-lost-after-set")
              /\ cnt' = [cnt EXCEPT ![u] = @ + 1]
-             /\ Go(u, IF cnt[u] + 1 >= UsesPer THEN "done" ELSE "use") /\ UNCHANGED <<M, T, X>>
+             /\ Go(u, IF cnt[u] + 1 >= UsesPer THEN "done" ELSE "use") /\ UNCHANGED <<M, T, X, S>>
 
 PNext(p) ==
-  \/ p \in MInst /\ (ICall(p) \/ IOnce(p) \/ IOnceWait(p) \/ IProvLock(p) \/ (\E m \in Meters : IMeterLock(p, m))
+  \/ p \in Insts /\ (SBegin(p) \/ SCall(p) \/ SRet(p))
+  \/ p \in MInst /\ (IOnce(p) \/ IOnceWait(p) \/ IProvLock(p) \/ (\E m \in Meters : IMeterLock(p, m))
                      \/ IDelegateMeter(p) \/ (\E x \in Owners : IInst(p, x)) \/ IRegLock(p) \/ IReg(p)
-                     \/ IMeterUnlock(p) \/ IProvUnlock(p) \/ IStore(p) \/ IRet(p))
+                     \/ IMeterUnlock(p) \/ IProvUnlock(p) \/ IStore(p))
   \/ p \in Owners /\ (OGet(p) \/ OMeter(p) \/ OInst(p) \/ RCall(p) \/ RLoad(p)
                       \/ GRegister(p) \/ GUnregCall(p) \/ GUnregLock(p) \/ GUnreg(p) \/ GURet(p))
-  \/ p \in TInst /\ (TICall(p) \/ TIOnce(p) \/ TIOnceWait(p) \/ TIProvLock(p) \/ (\E t \in Tracers : TITracer(p, t))
-                     \/ TIProvUnlock(p) \/ TIStore(p) \/ TIRet(p))
+  \/ p \in TInst /\ (TIOnce(p) \/ TIOnceWait(p) \/ TIProvLock(p) \/ (\E t \in Tracers : TITracer(p, t))
+                     \/ TIProvUnlock(p) \/ TIStore(p))
   \/ p \in TUsers /\ (UGet(p) \/ UTracer(p) \/ UCall(p) \/ ULoad(p))
-  \/ p \in XI /\ (XCall(p) \/ XSet(p) \/ XStore(p) \/ XRet(p))
+  \/ p \in XI /\ (XOnce(p) \/ XStore(p))
   \/ p \in XU /\ (XUCall(p) \/ XULoad(p))
 Next ==
-  \/ \E i \in MInst : \/ ICall(i) \/ IOnce(i) \/ IOnceWait(i) \/ IProvLock(i) \/ (\E m \in Meters : IMeterLock(i, m))
+  \/ \E i \in Insts : SBegin(i) \/ SCall(i) \/ SRet(i)
+  \/ \E i \in MInst : \/ IOnce(i) \/ IOnceWait(i) \/ IProvLock(i) \/ (\E m \in Meters : IMeterLock(i, m))
                        \/ IDelegateMeter(i) \/ (\E x \in Owners : IInst(i, x)) \/ IRegLock(i) \/ IReg(i)
-                       \/ IMeterUnlock(i) \/ IProvUnlock(i) \/ IStore(i) \/ IRet(i)
+                       \/ IMeterUnlock(i) \/ IProvUnlock(i) \/ IStore(i)
   \/ \E c \in Owners : \/ OGet(c) \/ OMeter(c) \/ OInst(c) \/ RCall(c) \/ RLoad(c)
                         \/ GRegister(c) \/ GUnregCall(c) \/ GUnregLock(c) \/ GUnreg(c) \/ GURet(c)
-  \/ \E i \in TInst : \/ TICall(i) \/ TIOnce(i) \/ TIOnceWait(i) \/ TIProvLock(i) \/ (\E t \in Tracers : TITracer(i, t))
-                       \/ TIProvUnlock(i) \/ TIStore(i) \/ TIRet(i)
+  \/ \E i \in TInst : \/ TIOnce(i) \/ TIOnceWait(i) \/ TIProvLock(i) \/ (\E t \in Tracers : TITracer(i, t))
+                       \/ TIProvUnlock(i) \/ TIStore(i)
   \/ \E u \in TUsers : UGet(u) \/ UTracer(u) \/ UCall(u) \/ ULoad(u)
-  \/ \E i \in XI : XCall(i) \/ XSet(i) \/ XStore(i) \/ XRet(i)
+  \/ \E i \in XI : XOnce(i) \/ XStore(i)
   \/ \E u \in XU : XUCall(u) \/ XULoad(u)
 Spec == Init /\ [][Next]_vars
 FairSpec == Spec /\ \A p \in Procs : WF_vars(PNext(p))
@@ -254,12 +311,22 @@ FairSpec == Spec /\ \A p \in Procs : WF_vars(PNext(p))
 Contract == mon.bad = {}
 RegisteredAtMostOnce == \A g \in Registrars : mon.sdkReg[g] <= 1
 (* each callback whose RegisterCallback returned and that nobody unregisters is registered with the SDK once
-   installation has returned *)
+   an installation of a real provider has returned *)
 CallbackConnected == mon.setRet["mp"] =>
   \A g \in mon.regRet \ mon.unregCalled : mon.sdkReg[g] = 1 /\ mon.sdkAct[g] = 1
-(* no instrument / tracer handed out by the global API is left without delegate once installation returned *)
-InstConnected == mon.setRet["mp"] => \A x \in Owners : M.ikind[x] = "global" => M.idel[x]
-TracerConnected == mon.setRet["tp"] => \A u \in TUsers : T.handle[u] = "global" => T.tdel[TracerOf[u]]
+(* no placeholder instrument / tracer is left without delegate once a real installation returned *)
+InstConnected == mon.setRet["mp"] => \A x \in Owners : M.ikind[x] = "global" => M.idel[x] # "none"
+TracerConnected == mon.setRet["tp"] => \A u \in TUsers : T.handle[u] = "global" => T.tdel[TracerOf[u]] # "none"
+(* the one-time hand-over is used up only by a real provider, never by a self-set *)
+OnceOnlyByReal == /\ M.once # "free" => mon.first["mp"] \in Real \/ M.once = "running"
+                  /\ M.once = "done" => M.pdel \in Real
+                  /\ T.once = "done" => T.pdel \in Real
+                  /\ \A k \in XKinds : X.once[k] = "done" => X.del[k] \in Real
+(* every delegate ever configured is the first real provider *)
+OneDelegate == /\ M.pdel \in {"none", mon.first["mp"]}
+               /\ \A m \in Meters : M.mdel[m] \in {"none", mon.first["mp"]}
+               /\ \A x \in Owners : M.idel[x] \in {"none", mon.first["mp"]}
+               /\ \A t \in Tracers : T.tdel[t] \in {"none", mon.first["tp"]}
 LockSanity == /\ M.pmtx \in MInst \cup {"none"}
               /\ \A m \in Meters : M.mmtx[m] # "none" => (M.pmtx = M.mmtx[m])
 AllDone == \A p \in Procs : pc[p] = "done"
